@@ -162,6 +162,11 @@ def world_simplifications(world):
         s = _clone(world)
         s["worklist"]["max_volume_default"] = False
         yield s
+    for knob in ("ctor_positional", "legacy_class"):
+        if w.get(knob):
+            s = _clone(world)
+            s["worklist"][knob] = False
+            yield s
     if w.get("flag_type"):
         s = _clone(world)
         s["worklist"]["flag_type"] = None
